@@ -104,8 +104,8 @@ CHECKS = {
  "C11": ("exploration",
          "bounded-exhaustive program enumeration with a certificate oracle: the fixed-point walker's byte->statement attribution against the source map and the parsed listing text",
          "DESIGN.md §4 C11",
-         "For programs covering every emitting statement kind, long lines, scopes, pc assignments, loops, conditionals, macros invoked 1-3 times and in loops, 1-2 segments plain / relocated / interleaved / with overlapping target ranges, plus every assembling statement sequence of the C02 alphabet up to length 2 (3 thorough), in both macro attribution modes and for bytes-per-line 1..16: the source map must attribute exactly the target ranges of each statement's bytes to spans inside that statement (or its invocation), and the listing must show per source line exactly those bytes in emission order with correct row addresses, each line once.",
-         "Imports are not covered by the certificate walker; row contiguity is not demanded."),
+         "For programs covering every emitting statement kind, long lines, scopes, pc assignments, loops, conditionals, macros invoked 1-3 times and in loops, 1-2 segments plain / relocated / interleaved / with overlapping target ranges, plus every assembling statement sequence of the C02 alphabet up to length 2 (3 thorough), in both macro attribution modes and for bytes-per-line 1..16: the source map must attribute exactly the target ranges of each statement's bytes to spans inside that statement (or its invocation), and the listing must show per source line exactly those bytes in emission order with correct row addresses, each line once. Imports (5 file bodies x plain / namespace x position; imported twice with different parameters; into two segments) are decided differentially: listing and source map of main.asm + imported file against the single-file twin in which the import is replaced by a scope holding the file's text (the twin lies in the certified space).",
+         "Row contiguity is not demanded (a row carries its first address only); for imports the statement-level attribution is inherited from the twin."),
 }
 
 NOT_YET = {
